@@ -23,6 +23,7 @@ type c18Case struct {
 	Start string   `json:"start,omitempty"` // -d argument (relative to the sandbox) or "" for none
 	Cwd   string   `json:"cwd,omitempty"`   // working directory (relative to the sandbox)
 	Abs   bool     `json:"abs,omitempty"`
+	Raw   string   `json:"raw,omitempty"` // spelling of Start handed to the CLI without cleaning (dots, doubled and trailing separators)
 }
 
 type c18Dir struct {
@@ -82,6 +83,10 @@ func c18Tree() (sut.Tree, *rulesCase) {
 	t["regex-assembly/932100x.ra"] = "junk\n"
 	t["regex-assembly/932100.raa"] = "raa\n"
 	t["regex-assembly/932100.ra.ra"] = "rara\n"
+	t["regex-assembly/932100_ra.ra"] = "underscorera\n"
+	t["regex-assembly/932100xra.ra"] = "xra\n"
+	t["regex-assembly/932100-chain12ra.ra"] = "chain12ra\n"
+	t["regex-assembly/9321007ra.ra"] = "sevenra\n"
 	t["regex-assembly/include/inc1.ra"] = "  included1\n"
 	t["regex-assembly/include/932100.ra"] = "  include-named-like-a-rule\n"
 	t["regex-assembly/include/932100-chain300.ra"] = "  include-named-like-a-big-offset\n"
@@ -270,6 +275,17 @@ func c18Root(env *core.Env, c *c18Case) core.Verdict {
 			}
 			darg = rel
 		}
+		if c.Raw != "" {
+			// the spelling with dots and extra separators, as typed; it names the same directory as Start
+			darg = sandbox + "/" + c.Raw
+			if !c.Abs {
+				rel, err := filepath.Rel(cwd, sandbox)
+				if err != nil {
+					return core.Incon("rel: %v", err)
+				}
+				darg = rel + "/" + c.Raw
+			}
+		}
 		args = append(args, "-d", darg)
 	}
 	v := core.Verdict{Status: core.Held, Nontrivial: len(roots) >= 2, Counts: map[string]int{}, Features: []string{fmt.Sprintf("expect-root:%v", expect >= 0)}}
@@ -363,7 +379,7 @@ func c18All(env *core.Env, c *c18Case) core.Verdict {
 					return core.Viol("all-wraps-offset", "update --all wrote the content of %s (offset above 255) into %s", name, line2key[i])
 				}
 			}
-			for _, bad := range []string{"five", "seven", "junk", "raa", "rara"} {
+			for _, bad := range []string{"five", "seven", "junk", "raa", "rara", "underscorera", "xra", "chain12ra", "sevenra"} {
 				if op == bad {
 					return core.Viol("all-uses-file-outside-grammar", "update --all wrote the content of a file whose name is outside the grammar (%s) into %s", bad, line2key[i])
 				}
@@ -455,7 +471,9 @@ func c18Cases(env *core.Env, rng *rand.Rand) []core.Case {
 		"93210", "9321000", "93210a", "932100x", "x932100", "932100.raa", "932100.ra.ra", "932100-chain1.raa", "932100-chain1.ra.ra", " 932100", "932100 ", "+932100", "-932100",
 		"932100-chain-1", "932100-chain+1", "932100-chain1-chain2", "932100-CHAIN1", "932100-chain", "932100-chain.ra", "932100-chain1.RA", "９３２１００", "932100\n", "932100\n.ra",
 		"./932100", "../regex-assembly/932100.ra", "932100/", "932100.ra/", "932100-chain1x", "932100-chain0x10", "932100-chain1e2", "932100_chain1", "932100-chain 1", "",
-		"932100-chain٣", "0932100", "932100.r", "932100ra", ".ra", "-chain1", "932100--chain1")
+		"932100-chain٣", "0932100", "932100.r", "932100ra", ".ra", "-chain1", "932100--chain1",
+		// one arbitrary character where the dot of the extension belongs
+		"932100_ra", "932100-ra", "932100xra", "9321007ra", "932100-chain12ra", "932100-chain1xra", "932100 ra", "932100/ra", "932101-chain1_ra")
 	per := 24
 	if env.Thorough() {
 		// random arguments around the grammar
@@ -522,7 +540,13 @@ func c18Cases(env *core.Env, rng *rand.Rand) []core.Case {
 		cwds := []string{"outer", "outer/a/b", "outer/a/b/inner", "beside", "outer/a/b/inner/c/d", "."}
 		c.Cwd = cwds[rng.Intn(len(cwds))]
 		if strings.Contains(c.Start, "..") {
-			c.Start = filepath.Clean(c.Start) // the model works on clean paths; the dotted form is given to the CLI through Rel/Abs anyway
+			c.Start = filepath.Clean(c.Start)
+		}
+		if i%5 == 3 {
+			// a spelling with dots and extra separators, handed over as typed: resolution starts at the directory it names
+			c.Raw = core.Pick(rng, "outer/a/b/inner/..", "outer/a/b/inner/../", "outer/a/b/inner/c/d/e/../../..", "outer/a/b/../b/inner", "outer/a/b/inner/c/d/..", "outer/a/other/..", "outer/a/other/../",
+				"beside/x/y/../../../outer/a/b/inner/c/./", "outer/a/b/inner/.", "outer//a/b", "outer/a/b/inner/c/d/../..", "outer/a/b/inner/c/d/e/../..", "outer/rules/..", "outer/a/b/inner/c/d/e/../../../..")
+			c.Start = filepath.Clean(c.Raw)
 		}
 		cs = append(cs, c)
 	}
@@ -533,8 +557,8 @@ func init() {
 	register(&core.Property{
 		ID:    "C18",
 		Level: "fault_enumeration",
-		Rule: "(1) grammar table, enumerated: arguments 932100-chainK for every K in 0..300 (every seventh with .ra), offsets at and beyond uint8/uint16/uint32/uint64 (2^64-1, 2^64, 2^64+1, 20 and 23 digits), leading zeros, ids of 5/7 digits, trailing junk, .raa/.ra.ra, blanks, signs, upper case, non-ASCII digits, path-like forms, the empty string (thorough: plus 1500 PRNG arguments built from grammar fragments). The tree holds a rule with a chain of 300, and every assembly file and every chain position carries a distinct token, so the line that `update ARG` changes and the text it writes identify the resolved (file, rule id, offset); rejected arguments must exit non-zero and change nothing; `generate ARG` must equal `generate -` on the same bytes; compare must resolve like update. " +
-			"(1b) update --all and compare --all on the same tree (with and without the files whose offset is above 255): such files make the run fail and their content never lands on any rule, files outside the grammar are skipped. (1c) `generate ARG` against `generate -` on the same bytes for awkward contents (byte order mark at the start and inside, CRLF, missing final newline, empty, NUL, invalid UTF-8, directives on the first line). (2) `format ARG` with rule ids, include names and near misses: exactly the file predicted by the grammar model changes. (3) root resolution: nested roots with distinct content and distinct toolchain.yaml, -d at depth 0..4 below or beside, relative/absolute, non-existent tails, inside regex-assembly, and no -d with various working directories; the printed regex identifies which root and which configuration were used. Non-trivial = every args/format batch and every root case with >= 2 roots.",
+		Rule: "(1) grammar table, enumerated: arguments 932100-chainK for every K in 0..300 (every seventh with .ra), offsets at and beyond uint8/uint16/uint32/uint64 (2^64-1, 2^64, 2^64+1, 20 and 23 digits), leading zeros, ids of 5/7 digits, trailing junk, one arbitrary character in place of the extension's dot, .raa/.ra.ra, blanks, signs, upper case, non-ASCII digits, path-like forms, the empty string (thorough: plus 1500 PRNG arguments built from grammar fragments). The tree holds a rule with a chain of 300, and every assembly file and every chain position carries a distinct token, so the line that `update ARG` changes and the text it writes identify the resolved (file, rule id, offset); rejected arguments must exit non-zero and change nothing; `generate ARG` must equal `generate -` on the same bytes; compare must resolve like update. " +
+			"(1b) update --all and compare --all on the same tree (with and without the files whose offset is above 255): such files make the run fail and their content never lands on any rule, files outside the grammar are skipped. (1c) `generate ARG` against `generate -` on the same bytes for awkward contents (byte order mark at the start and inside, CRLF, missing final newline, empty, NUL, invalid UTF-8, directives on the first line). (2) `format ARG` with rule ids, include names and near misses: exactly the file predicted by the grammar model changes. (3) root resolution: nested roots with distinct content and distinct toolchain.yaml, -d at depth 0..4 below or beside, relative/absolute, spelled with dots, doubled and trailing separators, non-existent tails, inside regex-assembly, and no -d with various working directories; the printed regex identifies which root and which configuration were used. Non-trivial = every args/format batch and every root case with >= 2 roots.",
 		Cases:         c18Cases,
 		Check:         c18Check,
 		Decode:        decoder[c18Case](),
